@@ -310,7 +310,16 @@ Qed.
 
 (* the leaf hypothesis of the threading theorem holds by the translated
    Num / Var .flatten, whatever ext_flatten and def_flatten are *)
-Lemma q_anode_leaves : forall e kw a, k_t kw = Some t -> k_defs kw = None ->
+Definition no_defs (kw : kwargs defs) : Prop :=
+  forall n, nodef defs defs_mem kw n = true.
+
+Lemma no_defs_none : forall kw, k_defs kw = None -> no_defs kw.
+Proof. intros kw H n. unfold nodef. now rewrite H. Qed.
+
+Lemma no_defs_prime : forall kw, no_defs kw -> no_defs (kw_set_prime kw).
+Proof. intros kw H n. exact (H n). Qed.
+
+Lemma q_anode_leaves : forall e kw a, k_t kw = Some t -> no_defs kw ->
   q_anode var_id t (py_truth (k_prime kw)) e = Some a -> lok a kw.
 Proof.
   induction e as [v|n|op e IH|o op e1 IH1 e2 IH2]; intros kw a Ht Hd H; cbn [q_anode] in H.
@@ -318,12 +327,12 @@ Proof.
     now apply leaf_num.
   - destruct (d_var_flatten var_id t n (py_truth (k_prime kw))) as [[b|bits|f|p]|] eqn:E;
       try discriminate. injection H as <-.
-    apply (leaf_var _ _ _ _ _ n t bits kw Ht); [unfold nodef; now rewrite Hd|exact E].
+    apply (leaf_var _ _ _ _ _ n t bits kw Ht); [apply Hd|exact E].
   - destruct (String.eqb op "X" || String.eqb op "'")%bool eqn:O; [|discriminate].
     destruct (q_anode var_id t true e) as [a'|] eqn:E; [|discriminate]. injection H as <-.
     cbn [leaves_ok]. split.
     + apply orb_prop in O. destruct O as [O|O]; apply String.eqb_eq in O; auto.
-    + apply IH; [exact Ht|exact Hd|exact E].
+    + apply IH; [exact Ht|now apply no_defs_prime|exact E].
   - destruct (aop_of_string op) as [o'|] eqn:O; [|discriminate].
     destruct (q_anode var_id t (py_truth (k_prime kw)) e1) as [a1|] eqn:E1; [|discriminate].
     destruct (q_anode var_id t (py_truth (k_prime kw)) e2) as [a2|] eqn:E2; [|discriminate].
@@ -374,7 +383,7 @@ Proof.
 Qed.
 
 Theorem translated_flatten_end_to_end : forall op l r la ra fuel kw res st vl vr,
-  k_t kw = Some t -> k_defs kw = None -> encodes ->
+  k_t kw = Some t -> no_defs kw -> encodes ->
   q_anode var_id t (py_truth (k_prime kw)) l = Some la ->
   q_anode var_id t (py_truth (k_prime kw)) r = Some ra ->
   qval env (py_truth (k_prime kw)) l = Some vl ->
